@@ -727,6 +727,12 @@ def render_value(prog, v, depth=0, names=None):
     if h == "model" and len(v) > 2 and v[1] in ("to_string", "into_bytes", "collect", "to_lowercase"):
         return "%s(%s)" % (v[1], render_value(prog, v[2], depth + 1, names))
     if h == "upd":
+        # a vector whose items are known (Vec::new / with_capacity + push / extend) reads like the vec! it is equal to
+        from .models import value_items
+        its = value_items(v)
+        if its is not None and not (isinstance(v[1], tuple) and v[1][0] == "model" and v[1][1] == "vec!" and value_items(v[1]) == its):
+            return "vec![%s]" % ", ".join(("..%s" % render_value(prog, e[1], depth + 1, names)) if (isinstance(e, tuple) and e and e[0] == "splice")
+                                          else render_value(prog, e, depth + 1, names) for e in its)
         return render_value(prog, v[1], depth, names)
     if h == "bin":
         return "(%s %s %s)" % (render_value(prog, v[3], depth + 1, names), v[1], render_value(prog, v[4], depth + 1, names))
